@@ -12,7 +12,7 @@ for f in $(grep -E '^\+\+\+ b/' "$P" | sed 's#^+++ b/##'); do
     src/io/*) add C13 C14 C05 C11 ;;
     src/app/*|src/main*.rs) add C05 C17 ;;
     src/encodings/*) add C10 C01 C02 C03 C04 C06 C11 ;;
-    src/solvers/*) add C01 C02 C03 C04 C07 C17 C18 C06 C11 ;;
+    src/solvers/*) add C01 C02 C03 C04 C07 C08 C17 C18 C06 C11 ;;
     src/sat/*) add C15 C16 C17 C06 ;;
     src/dynamics/*) add C08 C09 C17 C18 ;;
     *) add C01 ;;
@@ -20,4 +20,4 @@ for f in $(grep -E '^\+\+\+ b/' "$P" | sed 's#^+++ b/##'); do
 done
 LIST=$(echo "${!C[@]}" | tr ' ' '\n' | sort | tr '\n' ' ')
 echo "AUTO: checks for $(basename $(dirname $P))/$(basename $P): $LIST"
-exec /verif/tools/eval_seeded.sh "$P" $LIST
+exec $(dirname $0)/eval_seeded.sh "$P" $LIST
